@@ -338,6 +338,35 @@ def _alt_classes(annotation):
     return out
 
 
+def _elem_annotations(annotation, is_tuple, n):
+    """element annotations of the array / tuple alternatives of `annotation`; [annotation] when it has none
+    (the walk lost track of the annotation: keep the weaker per-element test)"""
+    out = []
+
+    def rec(a, depth=0):
+        o = typing.get_origin(a)
+        if o is Union:
+            for x in typing.get_args(a):
+                rec(x, depth)
+        elif o in (collections.abc.Sequence, list):
+            args = typing.get_args(a)
+            if args:
+                out.append(args[0])
+        elif o is tuple:
+            args = typing.get_args(a)
+            if len(args) == 2 and args[1] is Ellipsis:
+                out.append(args[0])
+            elif len(args) == n:
+                out.append(tuple(args))
+        elif isinstance(a, typing.ForwardRef):
+            tgt = getattr(lsp(), a.__forward_arg__, None)
+            if tgt is not None and depth < 20:
+                rec(tgt, depth + 1)
+
+    rec(annotation)
+    return out or [annotation]
+
+
 def acceptable(d, env, v, r, annotation):
     """True iff the handler result r is acceptable for the input v described by d (DESIGN §3.3)."""
     d = resolve_alt(d, env)
@@ -376,10 +405,16 @@ def acceptable(d, env, v, r, annotation):
             return False
         if len(r) != len(v):
             return False
-        for i in range(len(v)):
-            if not acceptable(d["elems"][i], env, v[i], r[i], annotation):
-                return False
-        return True
+        # the converted elements have to fit ONE array alternative of the annotation (`A[] | B[]` is not `(A | B)[]`)
+        for cand in _elem_annotations(annotation, d.get("tuple"), len(v)):
+            ok = True
+            for i in range(len(v)):
+                if not acceptable(d["elems"][i], env, v[i], r[i], cand[i] if isinstance(cand, tuple) else cand):
+                    ok = False
+                    break
+            if ok:
+                return True
+        return False
     if isinstance(r, Dispatched):
         return False
     if r is None:
